@@ -233,7 +233,7 @@ static const size_t counts[] = {0, 1, 2, 3, 4, 5, 6, 7, 8, 9, 10, 11, 12, 13, 14
 static const uint8_t fills[] = {0x80, 0xbf, 0xff, 0x00, 0x0a, '%', 0xc3, 0xe2, 0xf0, 0x7f, '\\', '"'};
 static const size_t fill_lens[] = {1, 2, 23, 24, 255, 256, 257, 511, 512, 513, 1023, 1024, 1025, 1026, 2048, 4097, 8192, 65536};
 #define NFILL ((uint64_t)(sizeof fills) * (sizeof fill_lens / sizeof fill_lens[0]) * 2 * 2)
-#define FAM3 ((uint64_t)(NLEN * 2 * 2 + NCNT * 4 * 2) + NFILL)
+#define FAM3 ((uint64_t)(NLEN * 2 * 2 + NCNT * 6 * 2) + NFILL)
 
 /* fifth family: a dictionary of well-known encodings — every example of RFC 8949 Appendix A that lies within the profile,
  * the RFC 9277 labels (self-described CBOR, the CBOR sequence label, tag 55801), registered tag idioms (bignums, decimal
@@ -390,11 +390,17 @@ static rnode* family3(uint64_t i) {
     if ((i & 1) && len >= 2 && (len % 3) == 1) { for (size_t k = 0; k < len; k++) n->bytes[k] = (uint8_t)('a' + k % 26); } /* valid text too */
   } else {
     i -= NLEN * 2;
-    size_t c = counts[i / 4];
-    int kind = (int)(i % 4); /* 0 def array, 1 indef array, 2 def map, 3 indef map */
-    n = rn_new(kind < 2 ? R_ARRAY : R_MAP);
-    n->indef = (uint8_t)(kind & 1);
-    for (size_t k = 0; k < c * (kind < 2 ? 1 : 2); k++) rn_add(n, mk_int(R_UINT, 0, k % 24, 0));
+    size_t c = counts[i / 6];
+    int kind = (int)(i % 6); /* 0 def array, 1 indef array, 2 def map, 3 indef map, 4 chunked bytes, 5 chunked text: that many members / pairs / chunks */
+    if (kind >= 4) {
+      n = rn_new(kind == 4 ? R_BYTES : R_TEXT);
+      n->indef = 1;
+      for (size_t k = 0; k < c; k++) rn_add(n, mk_str(kind == 4 ? R_BYTES : R_TEXT, k % 7 == 3 ? 0 : 1 + k % 3, 255, 0));
+    } else {
+      n = rn_new(kind < 2 ? R_ARRAY : R_MAP);
+      n->indef = (uint8_t)(kind & 1);
+      for (size_t k = 0; k < c * (kind < 2 ? 1 : 2); k++) rn_add(n, mk_int(R_UINT, 0, k % 24, 0));
+    }
   }
   return ctx ? wrap_ctx(1, n) : n;
 }
